@@ -295,30 +295,83 @@ Proof.
   destruct (ch_uid c0 =? uid); [exact H2|]. rewrite Forall_forall in H. now apply H.
 Qed.
 
+(** * polling order = creation order: the uids increase along the channel list, so the channel a writer switches to when its queue is
+      replaced - created with the next uid and appended - is polled after the one it replaces (and after every older channel), in every
+      consume, for as long as both exist *)
+Definition USorted (s : sess) : Prop := Sorted.StronglySorted N.lt (map ch_uid (channels s)).
+
+Lemma ssorted_snoc l x : Sorted.StronglySorted N.lt l -> Forall (fun y => y < x) l -> Sorted.StronglySorted N.lt (l ++ [x]).
+Proof.
+  induction 1 as [|y l Hl IH Hy]; intros Hx; cbn [app]; [constructor; constructor|]. inversion Hx; subst.
+  constructor; [now apply IH|]. apply Forall_app. split; [exact Hy|constructor; [assumption|constructor]].
+Qed.
+Lemma ssorted_filter {A} (g : A -> N) f (l : list A) : Sorted.StronglySorted N.lt (map g l) -> Sorted.StronglySorted N.lt (map g (filter f l)).
+Proof.
+  induction l as [|x l IH]; intros H; [constructor|]. cbn [map filter] in *. inversion H as [|? ? Hl Hx]; subst.
+  destruct (f x); [|now apply IH]. cbn [map]. constructor; [now apply IH|].
+  rewrite Forall_forall in *. intros y Hy. apply Hx. apply in_map_iff in Hy. destruct Hy as (z & <- & Hz). apply filter_In in Hz. apply in_map. tauto.
+Qed.
+
+Lemma usorted_shape_ops s w k p : WInv s -> USorted s ->
+  USorted (fst (add_event s w k p)) /\ USorted (fst (add_event_probe s w k p)) /\ USorted (close_writer s w).
+Proof.
+  intros HW HU. unfold USorted in *. split; [|split].
+  - unfold add_event. destruct (assoc w (writers s)) as [uid|]; [|exact HU]. destruct (find_chan uid (channels s)) as [c|]; [|exact HU].
+    destruct (pbegin k _ (ch_q c)) as [q1 ok]. destruct ok; cbn [fst set_channels channels].
+    + now rewrite map_uid_upd.
+    + rewrite map_app. cbn [map ch_uid]. unfold close_chan. rewrite !map_uid_upd by reflexivity. apply ssorted_snoc; [exact HU|].
+      pose proof (W_lt s HW) as H. rewrite Forall_forall in *. intros y Hy. apply in_map_iff in Hy. destruct Hy as (c0 & <- & Hc0). now apply H.
+  - unfold add_event_probe. destruct (assoc w (writers s)) as [uid|]; [|exact HU]. destruct (find_chan uid (channels s)) as [c|]; [|exact HU].
+    destruct (pbegin k _ (ch_q c)) as [q1 ok]. cbn [fst set_channels channels]. now rewrite map_uid_upd.
+  - unfold close_writer. destruct (assoc w (writers s)) as [uid|]; [|exact HU]. cbn [channels]. unfold close_chan. now rewrite map_uid_upd.
+Qed.
+
+Lemma usorted_run_wacts acts : forall s d, WInv s -> USorted s -> USorted (fst (run_wacts s d acts)).
+Proof.
+  induction acts as [|a acts IH]; intros s d HW HU; [exact HU|]. cbn [run_wacts].
+  destruct (is_blocked (wact_writer a) d); [now apply IH|].
+  destruct a as [w k p|w].
+  - pose proof (winv_add_event_probe s w k p HW) as W1. destruct (usorted_shape_ops s w k p HW HU) as (_ & U1 & _).
+    destruct (add_event_probe s w k p) as [s1 ok]. cbn [fst] in W1, U1. destruct ok; [|now apply IH].
+    pose proof (winv_add_event s1 w 0 p W1) as W2. destruct (usorted_shape_ops s1 w 0 p W1 U1) as (U2 & _ & _).
+    destruct (add_event s1 w 0 p) as [s2 f]. cbn [fst] in W2, U2. now apply IH.
+  - apply IH; [now apply winv_close_writer|]. destruct (usorted_shape_ops s w 0 [] HW HU) as (_ & _ & U). exact U.
+Qed.
+
+Lemma usorted_replace s c c2 : USorted s -> ch_uid c2 = ch_uid c -> USorted (set_channels s (upd_chan (ch_uid c) (fun _ => c2) (channels s))).
+Proof.
+  unfold USorted. intros HU Hu. cbn [set_channels channels]. rewrite upd_as_map, map_map. erewrite map_ext; [exact HU|].
+  intros c0. cbv beta. destruct (N.eqb_spec (ch_uid c0) (ch_uid c)); congruence.
+Qed.
+
+
 (** * the channel loop of consume: whatever it marks for removal has been delivered completely *)
 Lemma loop_removal n : forall s d idx plans s' ws removed d',
-  WInv s -> SInv s -> Forall Dd (channels s) ->
-  consume_loop true s d idx n plans = (s', ws, removed, d') -> WInv s' /\ Forall Dd (channels s').
+  WInv s -> SInv s -> Forall Dd (channels s) -> USorted s ->
+  consume_loop true s d idx n plans = (s', ws, removed, d') -> WInv s' /\ Forall Dd (channels s') /\ USorted s'.
 Proof.
-  induction n as [|n IH]; intros s d idx plans s' ws removed d' HW HS HD E; cbn [consume_loop] in E.
+  induction n as [|n IH]; intros s d idx plans s' ws removed d' HW HS HD HU E; cbn [consume_loop] in E.
   - inversion E; subst. auto.
   - destruct (run_wacts_removal (pl_before (plan_nth plans idx)) s d HW HD) as (W1 & D1 & C1).
     pose proof (sinv_run_wacts (pl_before (plan_nth plans idx)) s d HS) as S1.
-    destruct (run_wacts s d (pl_before (plan_nth plans idx))) as [s1 d1]. cbn [fst] in W1, D1, C1, S1.
+    pose proof (usorted_run_wacts (pl_before (plan_nth plans idx)) s d HW HU) as U1.
+    destruct (run_wacts s d (pl_before (plan_nth plans idx))) as [s1 d1]. cbn [fst] in W1, D1, C1, S1, U1.
     destruct (nth_error (channels s1) idx) as [c0|] eqn:E0; [|inversion E; subst; auto].
     destruct (run_wacts_removal (pl_between (plan_nth plans idx)) s1 d1 W1 D1) as (W2 & D2 & C2).
     pose proof (sinv_run_wacts (pl_between (plan_nth plans idx)) s1 d1 S1) as S2.
-    destruct (run_wacts s1 d1 (pl_between (plan_nth plans idx))) as [s2 d2]. cbn [fst] in W2, D2, C2, S2.
+    pose proof (usorted_run_wacts (pl_between (plan_nth plans idx)) s1 d1 W1 U1) as U2.
+    destruct (run_wacts s1 d1 (pl_between (plan_nth plans idx))) as [s2 d2]. cbn [fst] in W2, D2, C2, S2, U2.
     destruct (nth_error (channels s2) idx) as [c|] eqn:E2; [|inversion E; subst; auto].
     pose proof (nth_error_chan_ok s2 idx c S2 E2) as Hc. unfold chan_ok in Hc. pose proof Hc as [HI _].
     pose proof (nth_error_In _ _ E2) as Hin.
     assert (Dc : Dd c) by (rewrite Forall_forall in D2; now apply D2).
     (* the final state of the polled channel, in each of the four cases *)
     assert (G : forall c2, ch_uid c2 = ch_uid c -> (forall w, assoc w (writers s2) = Some (ch_uid c) -> ch_owner c2 = Some w) -> Dd c2 -> chan_ok c2 ->
-                let s3 := set_channels s2 (upd_chan (ch_uid c) (fun _ => c2) (channels s2)) in WInv s3 /\ SInv s3 /\ Forall Dd (channels s3)).
-    { intros c2 Hu Ho Hd Hok s3. split; [now apply winv_replace|]. split.
+                let s3 := set_channels s2 (upd_chan (ch_uid c) (fun _ => c2) (channels s2)) in WInv s3 /\ SInv s3 /\ Forall Dd (channels s3) /\ USorted s3).
+    { intros c2 Hu Ho Hd Hok s3. split; [now apply winv_replace|]. split; [|split].
       - apply sinv_set_channels; [exact S2|]. apply forall_upd_chan; [exact (SI_chans s2 S2)|]. intros _ _. exact Hok.
-      - cbn [set_channels channels]. now apply dd_replace. }
+      - cbn [set_channels channels]. now apply dd_replace.
+      - now apply usorted_replace. }
     destruct (ch_owner c0) as [x|] eqn:Eo0.
     + (* not found closed *)
       cbn [andb] in E. destruct (cread (pl_k (plan_nth plans idx)) (ch_q c)) as [q1 [p1 p2]] eqn:Er.
@@ -330,13 +383,13 @@ Proof.
       destruct (N.eqb_spec (lenN p1 + lenN p2) 0) as [Hz|Hnz]; cbv zeta iota beta in E;
         (match type of E with context [consume_loop true ?st d2 (S idx) n plans] => set (s3 := st) in E end).
       * destruct (G (mkChan (ch_uid c) q1 (ch_wid c) (ch_wname c) (ch_batch c) (ch_owner c)) eq_refl (Hown _ _)
-                   (Hdd _ _ (fun Hr => proj2 (all_delivered_poll _ _ _ _ _ HI (Dc Hr) Er))) Hq1) as (W3 & S3 & D3).
-        fold s3 in W3, S3, D3. destruct (consume_loop true s3 d2 (S idx) n plans) as [[[s4 ws4] rem4] d4] eqn:E4.
-        destruct (IH _ _ _ _ _ _ _ _ W3 S3 D3 E4) as [A B]. inversion E; subst. auto.
+                   (Hdd _ _ (fun Hr => proj2 (all_delivered_poll _ _ _ _ _ HI (Dc Hr) Er))) Hq1) as (W3 & S3 & D3 & U3).
+        fold s3 in W3, S3, D3, U3. destruct (consume_loop true s3 d2 (S idx) n plans) as [[[s4 ws4] rem4] d4] eqn:E4.
+        destruct (IH _ _ _ _ _ _ _ _ W3 S3 D3 U3 E4) as (A & B & C). inversion E; subst. auto.
       * destruct (G (mkChan (ch_uid c) (cend q1) (ch_wid c) (ch_wname c) (lenN p1 + lenN p2) (ch_owner c)) eq_refl (Hown _ _)
-                   (Hdd _ _ (fun Hr => False_ind _ (Hnz (proj1 (all_delivered_poll _ _ _ _ _ HI (Dc Hr) Er))))) (q_ok_cend _ Hq1)) as (W3 & S3 & D3).
-        fold s3 in W3, S3, D3. destruct (consume_loop true s3 d2 (S idx) n plans) as [[[s4 ws4] rem4] d4] eqn:E4.
-        destruct (IH _ _ _ _ _ _ _ _ W3 S3 D3 E4) as [A B]. inversion E; subst. auto.
+                   (Hdd _ _ (fun Hr => False_ind _ (Hnz (proj1 (all_delivered_poll _ _ _ _ _ HI (Dc Hr) Er))))) (q_ok_cend _ Hq1)) as (W3 & S3 & D3 & U3).
+        fold s3 in W3, S3, D3, U3. destruct (consume_loop true s3 d2 (S idx) n plans) as [[[s4 ws4] rem4] d4] eqn:E4.
+        destruct (IH _ _ _ _ _ _ _ _ W3 S3 D3 U3 E4) as (A & B & C). inversion E; subst. auto.
     + (* found closed: the same channel is still there, nobody can have written to it, and the poll reads the newest store *)
       cbn [andb] in E. pose proof (C2 idx c0 E0 Eo0) as E2'. rewrite E2 in E2'. inversion E2'; subst c0. clear E2'.
       destruct (cread (length (Wpend (ch_q c))) (ch_q c)) as [q1 [p1 p2]] eqn:Er.
@@ -347,13 +400,13 @@ Proof.
       destruct (N.eqb_spec (lenN p1 + lenN p2) 0) as [Hz|Hnz]; cbv zeta iota beta in E;
         (match type of E with context [consume_loop true ?st d2 (S idx) n plans] => set (s3 := st) in E end).
       * destruct (G (mkChan (ch_uid c) q1 (ch_wid c) (ch_wname c) (ch_batch c) (Some 18446744073709551615)) eq_refl (Hown _)
-                   (fun _ => proj2 (all_delivered_poll _ _ _ _ _ HI (Hz' Hz) Er)) Hq1) as (W3 & S3 & D3).
-        fold s3 in W3, S3, D3. destruct (consume_loop true s3 d2 (S idx) n plans) as [[[s4 ws4] rem4] d4] eqn:E4.
-        destruct (IH _ _ _ _ _ _ _ _ W3 S3 D3 E4) as [A B]. inversion E; subst. auto.
+                   (fun _ => proj2 (all_delivered_poll _ _ _ _ _ HI (Hz' Hz) Er)) Hq1) as (W3 & S3 & D3 & U3).
+        fold s3 in W3, S3, D3, U3. destruct (consume_loop true s3 d2 (S idx) n plans) as [[[s4 ws4] rem4] d4] eqn:E4.
+        destruct (IH _ _ _ _ _ _ _ _ W3 S3 D3 U3 E4) as (A & B & C). inversion E; subst. auto.
       * destruct (G (mkChan (ch_uid c) (cend q1) (ch_wid c) (ch_wname c) (lenN p1 + lenN p2) (Some 18446744073709551615)) eq_refl (Hown _)
-                   (fun _ => Hnz' Hnz) (q_ok_cend _ Hq1)) as (W3 & S3 & D3).
-        fold s3 in W3, S3, D3. destruct (consume_loop true s3 d2 (S idx) n plans) as [[[s4 ws4] rem4] d4] eqn:E4.
-        destruct (IH _ _ _ _ _ _ _ _ W3 S3 D3 E4) as [A B]. inversion E; subst. auto.
+                   (fun _ => Hnz' Hnz) (q_ok_cend _ Hq1)) as (W3 & S3 & D3 & U3).
+        fold s3 in W3, S3, D3, U3. destruct (consume_loop true s3 d2 (S idx) n plans) as [[[s4 ws4] rem4] d4] eqn:E4.
+        destruct (IH _ _ _ _ _ _ _ _ W3 S3 D3 U3 E4) as (A & B & C). inversion E; subst. auto.
 Qed.
 
 (** * between operations no channel carries the removal mark *)
@@ -381,12 +434,12 @@ Proof.
   intros Hin. apply Hx. apply in_map_iff in Hin. destruct Hin as (y & E & Hy). apply filter_In in Hy. apply in_map_iff. exists y. tauto.
 Qed.
 
-Lemma fold_deferred_removal d : forall s, WInv s -> Um s ->
-  let s' := fold_left (fun st a => match a with WAdd w k p => fst (add_event st w k p) | WClose w => close_writer st w end) d s in WInv s' /\ Um s'.
+Lemma fold_deferred_removal d : forall s, WInv s -> Um s -> USorted s ->
+  let s' := fold_left (fun st a => match a with WAdd w k p => fst (add_event st w k p) | WClose w => close_writer st w end) d s in WInv s' /\ Um s' /\ USorted s'.
 Proof.
-  induction d as [|a d IH]; intros s HW HU; [cbn; auto|]. cbn [fold_left]. destruct a as [w k p|w].
-  - apply IH; [now apply winv_add_event|]. eapply um_shape; [apply shape_add_event; exact HW|exact HU].
-  - apply IH; [now apply winv_close_writer|]. eapply um_shape; [apply shape_close_writer; exact HW|exact HU].
+  induction d as [|a d IH]; intros s HW HU HO; [cbn; auto|]. cbn [fold_left]. destruct a as [w k p|w].
+  - apply IH; [now apply winv_add_event| |exact (proj1 (usorted_shape_ops s w k p HW HO))]. eapply um_shape; [apply shape_add_event; exact HW|exact HU].
+  - apply IH; [now apply winv_close_writer| |exact (proj2 (proj2 (usorted_shape_ops s w 0%nat [] HW HO)))]. eapply um_shape; [apply shape_close_writer; exact HW|exact HU].
 Qed.
 
 (** the channels a consume removes: those marked at the end of its channel loop (the definition repeats the first lines of [consume]) *)
@@ -395,11 +448,11 @@ Definition consume_removed (s : sess) (plans : list cplan) : list chan :=
   let '(s2, _, _, _) := consume_loop true s1 [] 0 (length (channels s1)) plans in
   filter is_reset (channels s2).
 
-Theorem consume_removes_only_drained s plans : WInv s -> SInv s -> Um s ->
+Theorem consume_removes_only_drained s plans : WInv s -> SInv s -> Um s -> USorted s ->
   Forall (fun c => all_delivered (ch_q c)) (consume_removed s plans) /\
-  WInv (fst (fst (consume true s plans))) /\ Um (fst (fst (consume true s plans))).
+  WInv (fst (fst (consume true s plans))) /\ Um (fst (fst (consume true s plans))) /\ USorted (fst (fst (consume true s plans))).
 Proof.
-  intros HW HS HU. unfold consume_removed, consume.
+  intros HW HS HU HO. unfold consume_removed, consume.
   set (s1 := mkSess (channels s) (cs_buf s) false (src_buf s) (lenN (src_buf s)) _ _ _ _ _ _).
   assert (W1 : WInv s1) by (apply (winv_same s); auto).
   assert (S1 : SInv s1).
@@ -407,10 +460,10 @@ Proof.
     exists (a ++ b), []. rewrite ReaderLemmas.stream_of_app. split; [now rewrite Eb, app_nil_r|now rewrite Eb]. }
   assert (D1 : Forall Dd (channels s1)) by (apply (um_dd s); exact HU).
   destruct (consume_loop true s1 [] 0 (length (channels s1)) plans) as [[[s2 wsl] removed] deferred] eqn:El.
-  destruct (loop_removal _ _ _ _ _ _ _ _ _ W1 S1 D1 El) as [W2 D2].
+  destruct (loop_removal _ _ _ _ _ _ _ _ _ W1 S1 D1 HO El) as (W2 & D2 & O2).
   split.
   - apply Forall_forall. intros c Hc. apply filter_In in Hc. destruct Hc as [Hin Hr]. rewrite Forall_forall in D2. exact (D2 c Hin Hr).
-  - cbn [fst]. apply fold_deferred_removal.
+  - cbn [fst]. apply fold_deferred_removal; [| |unfold USorted; cbn [set_channels channels]; now apply ssorted_filter].
     + destruct W2 as [A B C D E]. constructor; cbn [set_channels channels next_uid writers]; auto.
       * now apply nodup_map_filter.
       * now apply forall_filter.
@@ -425,9 +478,9 @@ Definition sop_rm (o : sop) : Prop := match o with SNewWriter w c _ _ => (0 <= c
 Lemma um_sess_init cs : Um (sess_init cs) /\ WInv (sess_init cs).
 Proof. split; [constructor|]. constructor; cbn; try constructor. intros w u c H. discriminate. Qed.
 
-Lemma removal_sstep s o : WInv s -> SInv s -> Um s -> sop_rm o -> WInv (fst (sstep true s o)) /\ Um (fst (sstep true s o)).
+Lemma removal_sstep s o : WInv s -> SInv s -> Um s -> USorted s -> sop_rm o -> WInv (fst (sstep true s o)) /\ Um (fst (sstep true s o)).
 Proof.
-  intros HW HS HU Ho. destruct o; cbn [sstep sop_rm] in *.
+  intros HW HS HU HO Ho. destruct o; cbn [sstep sop_rm] in *.
   - destruct Ho as [Hc Hw]. cbn [fst].
     assert (A : WInv (create_channel s w capacity 0 []) /\ Um (create_channel s w capacity 0 [])).
     { split; [now apply winv_create_channel|]. unfold Um, create_channel. cbn [channels]. apply Forall_app. split; [exact HU|].
@@ -453,25 +506,65 @@ Proof.
   - unfold add_source. cbn [fst]. split; [apply (winv_same s); auto|exact HU].
   - cbn [fst]. split; [apply (winv_same s); auto|exact HU].
   - cbn [fst]. split; [apply (winv_same s); auto|exact HU].
-  - destruct (consume_removes_only_drained s plans HW HS HU) as (_ & A & B). destruct (consume true s plans) as [[s' ws] r]. cbn [fst] in *. auto.
+  - destruct (consume_removes_only_drained s plans HW HS HU HO) as (_ & A & B & _). destruct (consume true s plans) as [[s' ws] r]. cbn [fst] in *. auto.
   - unfold reconsume. cbn [fst]. split; [apply (winv_same s); auto|exact HU].
 Qed.
 
+Lemma usorted_sstep s o : WInv s -> SInv s -> Um s -> USorted s -> sop_rm o -> USorted (fst (sstep true s o)).
+Proof.
+  intros HW HS HU HO Ho. destruct o; cbn [sstep sop_rm] in *.
+  - cbn [fst].
+    assert (A : USorted (create_channel s w capacity 0 [])).
+    { unfold USorted, create_channel. cbn [channels]. rewrite map_app. cbn [map ch_uid]. apply ssorted_snoc; [exact HO|].
+      pose proof (W_lt s HW) as H. rewrite Forall_forall in *. intros y Hy. apply in_map_iff in Hy. destruct Hy as (c0 & <- & Hc0). now apply H. }
+    assert (B : forall s0 id0, USorted s0 -> USorted (set_writer_id s0 w id0)).
+    { intros s0 id0 X. unfold set_writer_id. destruct (assoc w (writers s0)); [|auto]. unfold USorted. cbn [set_channels channels]. now rewrite map_uid_upd. }
+    assert (C : forall s0 nm, USorted s0 -> USorted (set_writer_name s0 w nm)).
+    { intros s0 nm X. unfold set_writer_name. destruct (assoc w (writers s0)); [|auto]. unfold USorted. cbn [set_channels channels]. now rewrite map_uid_upd. }
+    destruct name; [|apply C]; (destruct (id =? 0); [exact A|apply B; exact A]).
+  - unfold set_writer_id. destruct (assoc w (writers s)); [|auto]. cbn [fst]. unfold USorted. cbn [set_channels channels]. now rewrite map_uid_upd.
+  - unfold set_writer_name. destruct (assoc w (writers s)); [|auto]. cbn [fst]. unfold USorted. cbn [set_channels channels]. now rewrite map_uid_upd.
+  - pose proof (proj1 (usorted_shape_ops s w k payload HW HO)) as A. destruct (add_event s w k payload). exact A.
+  - unfold log_stmt. destruct (min_sev s <=? lg_sev l); [|exact HO].
+    destruct (assoc (lg_site l) (sites s)) as [sid|].
+    + cbn [fst]. exact (proj1 (usorted_shape_ops s w k _ HW HO)).
+    + unfold add_source. cbn [fst].
+      match goal with |- USorted (fst (add_event ?st _ _ _)) => set (s1 := st) end.
+      assert (W1 : WInv s1) by (apply (winv_same s); auto).
+      exact (proj1 (usorted_shape_ops s1 w k _ W1 HO)).
+  - cbn [fst]. exact (proj2 (proj2 (usorted_shape_ops s w 0%nat [] HW HO))).
+  - unfold add_source. cbn [fst]. exact HO.
+  - cbn [fst]. exact HO.
+  - cbn [fst]. exact HO.
+  - destruct (consume_removes_only_drained s plans HW HS HU HO) as (_ & _ & _ & A). destruct (consume true s plans) as [[s' ws] r]. exact A.
+  - unfold reconsume. cbn [fst]. exact HO.
+Qed.
+
 Lemma sop_rm_ok o : sop_rm o -> sop_ok o. Proof. destruct o; cbn; tauto. Qed.
+
+(** the invariants of every reachable state *)
+Lemma removal_invariants_reachable cs ops : Forall sop_rm ops ->
+  let s := fst (srun true (sess_init cs) ops) in WInv s /\ SInv s /\ Um s /\ USorted s.
+Proof.
+  intros Hops.
+  assert (G : forall ops s0, WInv s0 -> SInv s0 -> Um s0 -> USorted s0 -> Forall sop_rm ops ->
+            WInv (fst (srun true s0 ops)) /\ SInv (fst (srun true s0 ops)) /\ Um (fst (srun true s0 ops)) /\ USorted (fst (srun true s0 ops))).
+  { induction ops0 as [|o r IH]; intros s0 HW HS HU HO Hr; [cbn; auto|]. inversion Hr as [|? ? Ho Hr']; subst. cbn [srun].
+    destruct (removal_sstep s0 o HW HS HU HO Ho) as [W1 U1]. pose proof (sinv_sstep true s0 o HS (sop_rm_ok o Ho)) as S1.
+    pose proof (usorted_sstep s0 o HW HS HU HO Ho) as O1.
+    destruct (sstep true s0 o) as [s1 out]. cbn [fst] in *. specialize (IH s1 W1 S1 U1 O1 Hr'). destruct (srun true s1 r). exact IH. }
+  destruct (um_sess_init cs) as [U0 W0].
+  apply G; auto using sinv_init. constructor.
+Qed.
+
+
 
 (** C02: in EVERY reachable state, whatever the next consume does, it removes only channels whose every committed byte has been handed out *)
 Theorem no_event_lost_at_removal cs ops plans : Forall sop_rm ops ->
   let s := fst (srun true (sess_init cs) ops) in Forall (fun c => all_delivered (ch_q c)) (consume_removed s plans).
 Proof.
-  intros Hops s.
-  assert (G : forall ops s0, WInv s0 -> SInv s0 -> Um s0 -> Forall sop_rm ops ->
-            WInv (fst (srun true s0 ops)) /\ SInv (fst (srun true s0 ops)) /\ Um (fst (srun true s0 ops))).
-  { induction ops0 as [|o r IH]; intros s0 HW HS HU Hr; [cbn; auto|]. inversion Hr as [|? ? Ho Hr']; subst. cbn [srun].
-    destruct (removal_sstep s0 o HW HS HU Ho) as [W1 U1]. pose proof (sinv_sstep true s0 o HS (sop_rm_ok o Ho)) as S1.
-    destruct (sstep true s0 o) as [s1 out]. cbn [fst] in *. specialize (IH s1 W1 S1 U1 Hr'). destruct (srun true s1 r). exact IH. }
-  destruct (um_sess_init cs) as [U0 W0].
-  destruct (G ops (sess_init cs) W0 (sinv_init cs) U0 Hops) as (W & S & U). fold s in W, S, U.
-  exact (proj1 (consume_removes_only_drained s plans W S U)).
+  intros Hops s. destruct (removal_invariants_reachable cs ops Hops) as (W & S & U & O). fold s in W, S, U, O.
+  exact (proj1 (consume_removes_only_drained s plans W S U O)).
 Qed.
 
 (** * C02, timeliness: a consume during which no writer acts hands out everything that was committed before it started *)
@@ -596,15 +689,25 @@ Theorem timely_delivery cs ops plans : Forall sop_rm ops -> quiet plans ->
   (forall j b, nth_error (channels s) j = Some b -> (length (Wpend (ch_q b)) <= pl_k (plan_nth plans j))%nat) ->
   forall c, In c (channels (fst (fst (consume true s plans)))) -> all_delivered (ch_q c).
 Proof.
-  intros Hops HQ s Hk.
-  assert (G : forall ops s0, WInv s0 -> SInv s0 -> Um s0 -> Forall sop_rm ops ->
-            WInv (fst (srun true s0 ops)) /\ SInv (fst (srun true s0 ops)) /\ Um (fst (srun true s0 ops))).
-  { induction ops0 as [|o r IH]; intros s0 HW HS HU Hr; [cbn; auto|]. inversion Hr as [|? ? Ho Hr']; subst. cbn [srun].
-    destruct (removal_sstep s0 o HW HS HU Ho) as [W1 U1]. pose proof (sinv_sstep true s0 o HS (sop_rm_ok o Ho)) as S1.
-    destruct (sstep true s0 o) as [s1 out]. cbn [fst] in *. specialize (IH s1 W1 S1 U1 Hr'). destruct (srun true s1 r). exact IH. }
-  destruct (um_sess_init cs) as [U0 W0].
-  destruct (G ops (sess_init cs) W0 (sinv_init cs) U0 Hops) as (W & S & U). fold s in W, S, U.
+  intros Hops HQ s Hk. destruct (removal_invariants_reachable cs ops Hops) as (W & S & U & O). fold s in W, S, U, O.
   now apply quiet_consume_drains.
+Qed.
+
+(** C02, order: in EVERY reachable state the channels are listed - and therefore polled by every consume - in the order of their creation
+    (strictly increasing uid). A writer whose queue is replaced continues on a channel created at that moment: it is polled after the
+    replaced one, and after every channel that existed before, for as long as they are in the session. *)
+Theorem channels_polled_in_creation_order cs ops : Forall sop_rm ops ->
+  Sorted.StronglySorted N.lt (map ch_uid (channels (fst (srun true (sess_init cs) ops)))).
+Proof. intros Hops. exact (proj2 (proj2 (proj2 (removal_invariants_reachable cs ops Hops)))). Qed.
+Theorem replacement_channel_is_last s w k p : WInv s -> snd (add_event s w k p) = false ->
+  assoc w (writers s) <> None -> (exists c, find_chan (match assoc w (writers s) with Some u => u | None => 0 end) (channels s) = Some c) ->
+  exists olds cnew, channels (fst (add_event s w k p)) = olds ++ [cnew] /\ map ch_uid olds = map ch_uid (channels s) /\
+    ch_uid cnew = next_uid s /\ ch_owner cnew = Some w /\ assoc w (writers (fst (add_event s w k p))) = Some (next_uid s).
+Proof.
+  intros HW Hslow Ha [c Hc]. unfold add_event in *. destruct (assoc w (writers s)) as [uid|]; [|congruence]. rewrite Hc in *.
+  destruct (pbegin k _ (ch_q c)) as [q1 ok]. destruct ok; [discriminate|]. cbn [fst channels writers].
+  eexists _, _. split; [reflexivity|]. split; [unfold close_chan; now rewrite !map_uid_upd|]. split; [reflexivity|]. split; [reflexivity|].
+  rewrite assoc_set_assoc. now rewrite N.eqb_refl.
 Qed.
 
 (** non-vacuity: a writer logs twice and is destroyed at once; a second writer's queue is replaced; the consume that follows removes the
@@ -617,3 +720,4 @@ Example rm_nonvacuous :
   let s := fst (srun true (sess_init default_cs) rm_ops) in
   length (channels s) = 3%nat /\ length (consume_removed s []) = 2%nat /\ length (channels (fst (fst (consume true s [])))) = 1%nat.
 Proof. split; [repeat constructor; try discriminate; cbn; lia|]. vm_compute. repeat split. Qed.
+
